@@ -19,4 +19,24 @@ Section Basics.
     destruct (header_of l0) eqn:E; try reflexivity.
     exfalso. apply (Hno s). reflexivity.
   Qed.
+  (** A malformed inclusion directive (`including` with no or with several arguments) in a phase other than
+      [act] stops the reader with an error located at the directive's OWN line (number, text, file, chain),
+      although the directive parser has already consumed that line when it raises. *)
+  Lemma malformed_directive_is_error :
+    forall inc fuel fi cur n l0 rest doc args,
+      cur <> SAct -> at_eof (l0 :: rest) = false -> is_header_line l0 = false ->
+      is_empty_line l0 = false -> is_comment_line l0 = false ->
+      split_ws l0 = including_token :: args -> length args <> 1%nat ->
+      loop iparse inc (S fuel) fi cur n (l0 :: rest) doc
+      = Err (ESource (Some cur) (LineSeq n [l0]) (fi_path fi) (fi_chain fi)).
+  Proof.
+    intros inc fuel fi cur n l0 rest doc args Hc Heof Hh He Hco Hsp Hlen.
+    assert (Hst : elem_step iparse cur n l0 rest = SErr (LineSeq n [l0])).
+    { assert (Hna : nonact_step iparse cur n l0 rest = SErr (LineSeq n [l0])).
+      { unfold nonact_step. rewrite He, Hco. unfold incl_step. rewrite Hsp.
+        assert (Hr : text_eqb including_token including_token = true) by reflexivity. rewrite Hr.
+        destruct args as [|a [|b args']]; try reflexivity. cbn in Hlen. contradiction. }
+      destruct cur; try exact Hna. contradiction. }
+    cbn [loop]. rewrite Heof, Hh, Hst. reflexivity.
+  Qed.
 End Basics.
